@@ -33,7 +33,7 @@ STUB = ["send_connectionstate outcomes (scripted callable) in W-HB", "gateway (S
         "loop clock/selector (SimLoop)"]
 ASSUMPTIONS = ["HEARTBEAT_RATE=70 s, CONNECTIONSTATE_REQUEST_TIMEOUT=10 s as in xknx/io/const.py (read at run time)"]
 LMAX = {"quick": 8, "thorough": 12}
-EXTRA = {"quick": 30000, "thorough": 300000}
+EXTRA = {"quick": 30000, "thorough": 1800000}
 CHUNK = 2000
 
 
